@@ -727,6 +727,7 @@ class Mailbox:
         #
         self.executing_tasks = []
         while True:
+            imap_cmd = None
             try:
                 # Block until we have an IMAP Command that wants to run on this
                 # mailbox.
@@ -821,6 +822,13 @@ class Mailbox:
                     self.name,
                     e,
                 )
+                # If we had pulled an IMAP command off of the queue but never
+                # told it to go ahead, hand it the failure. Otherwise it
+                # waits on `ready` until the command timeout fires.
+                #
+                if imap_cmd is not None and not imap_cmd.ready.is_set():
+                    imap_cmd.error = e
+                    imap_cmd.ready.set()
 
     ####################################################################
     #
